@@ -704,6 +704,16 @@ def _(i, st, a, c): return Agg('Vec', ())
 def _(i, st, a, c): return Agg('Vec', ())
 
 
+@model(r'Vec::pop')
+def _(i, st, a, c):
+    v = i.deref_read(st, a[0])
+    items = list(v.items)
+    if not items:
+        return Var('None', (), 'Option')
+    i.deref_write(st, a[0], Agg(v.tag, items[:-1]))
+    return Var('Some', (items[-1],), 'Option')
+
+
 @model(r'Vec::push')
 def _(i, st, a, c):
     v = i.deref_read(st, a[0])
@@ -719,6 +729,23 @@ def _(i, st, a, c):
         raise Unsupported('symbolic truncate')
     i.deref_write(st, a[0], Agg(v.tag, tuple(v.items)[:n]))
     return UNIT
+
+
+@model(r'std::slice::<impl \[.*\]>::to_vec', r'core::slice::<impl \[.*\]>::to_vec', r'alloc::slice::<impl \[.*\]>::to_vec')
+def _(i, st, a, c):
+    v = i.deref_read(st, a[0])
+    items = list(v.items)
+    if isinstance(a[0], Ref) and a[0].win is not None:
+        items = items[a[0].win[0]:a[0].win[0] + a[0].win[1]]
+    return Agg('Vec', items)
+
+
+@model(r'Vec::is_empty', r'core::slice::<impl \[.*\]>::is_empty')
+def _(i, st, a, c):
+    v = i.deref_read(st, a[0])
+    if isinstance(a[0], Ref) and a[0].win is not None:
+        return a[0].win[1] == 0
+    return len(v.items) == 0
 
 
 @model(r'<Vec as Clone>::clone')
